@@ -316,8 +316,13 @@ def run_all(ctx, cases, tag):
                 meta.update({kk: res["lines"][kk] for kk in ("from_array", "to_array", "where_lines", "rowscan_lines")})
                 meta["path_lines_found"] = res.get("path_lines_found")
                 return
-            if last is None or tries > 6:
-                raise core.CheckError("impl_c01 subprocess failed (rc=%s):\n%s" % (rc, out[-2000:]))
+            if last is None or tries > 60:
+                # the process keeps dying (or died before its first progress mark): every case still to do is recorded as
+                # having killed the process - an observation about the implementation, not a crash of the check
+                for i in todo:
+                    results[offset + i] = {"id": chunk[i].get("id"), "from": {"ok": False, "exc": "ProcessDied", "msg": "rc=%s %s" % (rc, out[-300:]), "path": None},
+                                           "to": None, "oracle": {"ok": False, "why": "the process died (rc=%s) under RLIMIT_AS=%dGiB (batch abandoned after %d restarts)" % (rc, MEM_GB, tries)}}
+                return
             killer = todo[last]
             results[offset + killer] = {"id": chunk[killer].get("id"), "from": {"ok": False, "exc": "ProcessDied", "msg": "rc=%s %s" % (rc, out[-300:]), "path": None},
                                         "to": None, "oracle": {"ok": False, "why": "the process died (rc=%s) under RLIMIT_AS=%dGiB" % (rc, MEM_GB)}}
